@@ -325,6 +325,11 @@ def finish(pid, tier, spec, units, results, engines, known, t0):
         eng_recs.append({k: r.get(k) for k in ("engine", "status", "reason", "n_obligations", "n_discharged", "wall_s", "detail", "bounded")})
         if r.get("status") == "undecided":
             undecided.append("%s: %s" % (eng, r.get("reason")))
+        if eng == "fwd":
+            # a leaf counts as under contract only if this check also runs the unit that carries its contract
+            missing = [u for u in (r.get("detail") or {}).get("leaf_units", []) if u not in units]
+            if missing:
+                undecided.append("fwd: leaf impls are under contract in units this check does not run: %s" % missing)
         for a in r.get("assumptions", []):
             assumptions.append(a)
         if not r.get("bounded"):
